@@ -55,6 +55,25 @@ def observed_expected(target, text, model, nr, nrho, dr, drho, alg, meta):
   return parsed, O, E
 
 
+def replay_written_first(target, other, model, nr, nrho, w, route):
+  """concrete: the same objects written as `other`, then as `target`; the second file against the model"""
+  import io
+  cutoff, cutoff_rho, dr, drho = EP._grid(w, nr, nrho)
+  funcs = EC.concrete_functions(EC.function_names(model))
+  eampots, pairpots, dip, quad = EC.build_objects(model, lambda name: funcs[name], EC.conc_meta)
+  rt = "class" if route == "class" else "func"
+  try:
+    write_target(other, rt, model, eampots, pairpots, dip, quad, cutoff, nr, cutoff_rho, nrho, io.StringIO())
+    out = io.StringIO()
+    write_target(target, rt, model, eampots, pairpots, dip, quad, cutoff, nr, cutoff_rho, nrho, out)
+    parsed, O, E = observed_expected(target, out.getvalue(), model, nr, nrho, dr, drho, EC.float_alg(funcs), EC.conc_meta)
+    bad = EC.compare_dicts(O, E, 1e-12, 1e-12) if EP.STYLE.get(target) else EC.compare_dicts(O, E, 1e-9, 6e-7)
+  except Exception as e:  # noqa
+    bad = ["%s: %s" % (type(e).__name__, e)]
+  rec = dict(kind="eam_written_first", target=target, written_first=other, model=model.describe(), nr=nr, nrho=nrho, cutoff=cutoff, cutoff_rho=cutoff_rho, mismatches=bad[:10])
+  return (bool(bad), "the same lists and potentials were written as %s first; the %s file then written: " % (other, target) + ("; ".join(bad[:3]) or "agrees with the model"), rec)
+
+
 class Mutable(object):
   """A callable whose behaviour can be changed in place (same object identity):
   models a potential whose parameters are adjusted between two writes."""
@@ -123,10 +142,13 @@ def replay_rewrite(target, model, nr, nrho, w):
   return (bool(bad), "; ".join(bad[:3]) or "both writes agree with the functions in force at the time", rec)
 
 
-def api_case(target, elements, pairs, nr, nrho, route="class", rot=0, dip=None, quad=None, extra_vcs=None, rewrite=True, surplus=None, shared=None, fs_undeclared=None):
+def api_case(target, elements, pairs, nr, nrho, route="class", rot=0, dip=None, quad=None, extra_vcs=None, rewrite=True, surplus=None, shared=None, fs_undeclared=None,
+             written_first=None):
+  """written_first: another target of the same family; the same python objects (lists, potentials) are written in that format
+  first - the caller's objects are not the writer's to change"""
   fs = target.endswith("_fs")
   model = EC.Model(elements, pairs, fs=fs, dip=dip, quad=quad, pair_list_rotation=rot, surplus=surplus, shared=shared, fs_undeclared=fs_undeclared)
-  res = new_result("api %s %s nr=%d nrho=%d %s" % (target, model.describe(), nr, nrho, route))
+  res = new_result("api %s %s nr=%d nrho=%d %s%s" % (target, model.describe(), nr, nrho, route, " after the same objects were written as %s" % written_first if written_first else ""))
 
   def fn():
     cutoff, cutoff_rho = sym("cutoff"), sym("cutoff_rho")
@@ -139,6 +161,8 @@ def api_case(target, elements, pairs, nr, nrho, route="class", rot=0, dip=None, 
       made.append(m)
       return m
     eampots, pairpots, d, q = EC.build_objects(model, mk, EC.sym_meta)
+    if written_first:
+      write_target(written_first, "class" if route == "class" else "func", model, eampots, pairpots, d, q, cutoff, nr, cutoff_rho, nrho, Sink())
     out = Sink()
     tab = None
     if route == "class" and rewrite:
@@ -195,6 +219,8 @@ def api_case(target, elements, pairs, nr, nrho, route="class", rot=0, dip=None, 
     return vcs
 
   def replay(v, w, path, structural):
+    if written_first:
+      return replay_written_first(target, written_first, model, nr, nrho, w, route)
     first = EP.replay_eam_api(target, model, nr, nrho, w, route)
     if first[0] or not rewrite or route != "class":
       return first
@@ -374,4 +400,26 @@ def shared_and_undeclared_cases(target, tier):
       for route in ("func", "class"):
         out.append(Case("api %s %s undeclared %s after a fully declared model %s" % (target, "/".join(order), und, route), after_failure_case, target=target,
                         elements=order, pairs=st, nr=3, nrho=3, route=route, rot=i, fail=False, fs_undeclared=und))
+  return out
+
+
+def written_first_cases(target, tier):
+  """the caller's objects after they were handed to another writer of the same family"""
+  from symx.run import Case
+  fs = target.endswith("_fs")
+  family = ["setfl_fs", "DL_POLY_EAM_fs"] if fs else ["setfl", "DL_POLY_EAM"]
+  others = [t for t in family if t != target] + ([target] if tier == "thorough" else [])
+  orders = [("Zr", "Cu", "Al"), ("Cu", "Al")] + ([] if tier == "quick" else [("Cu", "Zr", "Al"), ("Zr", "Al")])
+  out = []
+  for i, order in enumerate(orders):
+    cov = EC.covering_pair_states(order, seed=i + 7)
+    for other in others:
+      for route in ("class", "func"):
+        extra = {}
+        if target == "eam_adp":
+          if route == "func":
+            continue
+          extra = dict(dip=cov[1 % len(cov)], quad=cov[2 % len(cov)])
+        out.append(Case("api %s %s after %s %s" % (target, "/".join(order), other, route), api_case, target=target, elements=order, pairs=cov[i % len(cov)], nr=3, nrho=2 + i % 2,
+                        route=route, rot=i, rewrite=False, written_first=other, **extra))
   return out
